@@ -115,10 +115,15 @@ def coq_project():
             raise RuntimeError("coq_makefile failed:\n" + out)
 
 
+# no single .v file may run longer than this (the longest legitimate one takes < 3 min on a quiet machine); a runaway
+# conversion then fails its own file instead of holding the coq lock until the whole build times out
+COQC_CAP = "COQC=timeout 2400 coqc"
+
+
 def coq_make(targets, timeout=1500):
     """full .vo build of the given targets; returns (ok, output)"""
     coq_project()
-    rc, out = sh(["make", "-j%d" % NPROC] + targets, cwd=COQ, timeout=timeout)
+    rc, out = sh(["make", "-j%d" % NPROC, COQC_CAP] + targets, cwd=COQ, timeout=timeout)
     return rc == 0, out
 
 
@@ -741,7 +746,7 @@ def setup():
                      {t for m in mods.values() for t in getattr(m, "COQ_EXTRA_TARGETS", ())})
     with Lock("coq"):
         coq_project()
-        rc, out = sh(["make", "-j%d" % NPROC] + targets, cwd=COQ, timeout=7200)
+        rc, out = sh(["make", "-j%d" % NPROC, COQC_CAP] + targets, cwd=COQ, timeout=7200)
     log("\n".join(l for l in out.splitlines() if not l.startswith("COQC") and not l.startswith("COQDEP") and "Closed under" not in l)[-4000:])
     if rc != 0:
         log("setup: Coq build failed")
